@@ -94,6 +94,11 @@ class AbstractChunk(ABC):
         # Begin with a thorough inspection of the dataset
         data = utils.check_data_consistency(data, req_cols=self.DATA_COLS)
 
+        # The index labels of the user carry no information for ampycloud, but the processing
+        # steps select/assign rows through them: they must be unique (which is not the case if
+        # the user concatenated several DataFrames). Use a clean positional index internally.
+        data = data.reset_index(drop=True)
+
         # By default we set this flag to false and overwrite if enough hits are present
         self._clouds_above_msa_buffer = False
 
